@@ -435,38 +435,56 @@ inductive Handshake where
   | serverHelloDone
 deriving Repr, DecidableEq
 
+/-- the handshake message classes inside the model -/
+inductive HsClass where
+  | clientHello | serverHello | helloRetryRequest | certificate | serverKeyExchange
+  | certificateStatus | serverHelloDone
+deriving DecidableEq, Repr
+
+def hsClassOfName : String → Option HsClass
+  | "TlsHandshakeClientHello" => some .clientHello
+  | "TlsHandshakeServerHello" => some .serverHello
+  | "TlsHandshakeHelloRetryRequest" => some .helloRetryRequest
+  | "TlsHandshakeCertificate" => some .certificate
+  | "TlsHandshakeServerKeyExchange" => some .serverKeyExchange
+  | "TlsHandshakeCertificateStatus" => some .certificateStatus
+  | "TlsHandshakeServerHelloDone" => some .serverHelloDone
+  | _ => none
+
+/-- `get_handshake_type()` of the class, as its codec is built -/
+def HsClass.typ : HsClass → Nat
+  | .clientHello => 1 | .serverHello => 2 | .helloRetryRequest => 6 | .certificate => 11
+  | .serverKeyExchange => 12 | .certificateStatus => 22 | .serverHelloDone => 14
+
+def parseHsClass : HsClass → Bytes → Except PErr (Handshake × Nat)
+  | .clientHello, bs => (parseClientHello bs).map fun (h, n) => (.clientHello h, n)
+  | .serverHello, bs => (parseServerHello 2 bs).map fun (h, n) => (.serverHello h, n)
+  | .helloRetryRequest, bs => (parseServerHello 6 bs).map fun (h, n) => (.serverHello h, n)
+  | .certificate, bs => (parseCertificate bs).map fun (c, n) => (.certificate c, n)
+  | .serverKeyExchange, bs => (parseServerKeyExchange bs).map fun (p, n) => (.serverKeyExchange p, n)
+  | .certificateStatus, bs => (parseCertificateStatus bs).map fun ((t, s), n) => (.certificateStatus t s, n)
+  | .serverHelloDone, bs => (parseServerHelloDone bs).map fun (_, n) => (.serverHelloDone, n)
+
 def parseHandshakeClass (cls : String) (bs : Bytes) : Except PErr (Handshake × Nat) :=
-  match cls with
-  | "TlsHandshakeClientHello" => (parseClientHello bs).map fun (h, n) => (.clientHello h, n)
-  | "TlsHandshakeServerHello" => (parseServerHello 2 bs).map fun (h, n) => (.serverHello h, n)
-  | "TlsHandshakeHelloRetryRequest" => (parseServerHello 6 bs).map fun (h, n) => (.serverHello h, n)
-  | "TlsHandshakeCertificate" => (parseCertificate bs).map fun (c, n) => (.certificate c, n)
-  | "TlsHandshakeServerKeyExchange" => (parseServerKeyExchange bs).map fun (p, n) => (.serverKeyExchange p, n)
-  | "TlsHandshakeCertificateStatus" => (parseCertificateStatus bs).map fun ((t, s), n) => (.certificateStatus t s, n)
-  | "TlsHandshakeServerHelloDone" => (parseServerHelloDone bs).map fun (_, n) => (.serverHelloDone, n)
-  | _ => .error unmodelled
+  match hsClassOfName cls with
+  | some c => parseHsClass c bs
+  | none => .error unmodelled
 
-/-- `TlsHandshakeMessageVariant._parse`: the classes in the regenerated order, first that does
-not raise `InvalidType`. An unmodelled class (certificate request) is skipped when the type byte
-shows it would raise `InvalidType`; a message of that very type is beyond the model. -/
-def parseHandshakeVariantAux (bs : Bytes) : List (String × Nat) → Except PErr (Handshake × Nat)
-  | [] => .error .invalidValue
-  | (cls, typ) :: more =>
-    let r :=
-      match cls with
-      | "TlsHandshakeClientHello" | "TlsHandshakeServerHello" | "TlsHandshakeHelloRetryRequest"
-      | "TlsHandshakeCertificate" | "TlsHandshakeServerKeyExchange" | "TlsHandshakeCertificateStatus"
-      | "TlsHandshakeServerHelloDone" => parseHandshakeClass cls bs
-      | _ =>
-        match parseHsHeader typ bs with
-        | .ok _ => .error unmodelled
-        | .error e => .error e
-    match r with
-    | .error .invalidType => parseHandshakeVariantAux bs more
-    | r => r
+/-- one alternative of `TlsHandshakeMessageVariant`: a modelled class is its parser; an unmodelled
+class (certificate request) still runs the common header check with ITS type, so it raises
+`InvalidType` for other types — only a message of that very type is beyond the model -/
+def hsAlt (e : String × Nat) (bs : Bytes) : Except PErr (Handshake × Nat) :=
+  match hsClassOfName e.1 with
+  | some c => parseHsClass c bs
+  | none =>
+    match parseHsHeader e.2 bs with
+    | .ok _ => .error unmodelled
+    | .error err => .error err
 
+/-- `TlsHandshakeMessageVariant._parse` (`VariantParsable`): the classes in the regenerated order,
+first that does not raise `InvalidType`; exhaustion is `InvalidValue` -/
 def parseHandshakeVariant (bs : Bytes) : Except PErr (Handshake × Nat) :=
-  parseHandshakeVariantAux bs Gen.handshakeVariants
+  firstNotInvalidType (Gen.handshakeVariants.map hsAlt) bs
 
 def composeHandshake : Handshake → Except PErr Bytes
   | .clientHello h => composeClientHello h
